@@ -172,7 +172,10 @@ def register(PROPS):
         "gens": [{"id": "C15", "quick": 40000, "thorough": 1500000, "thorough_seeds": 12},
                  # "decode(encode(m)) = m" is about every message that can be built: an ID or type that reached the message by
                  # any of its routes (Scan, JSON, text, the constructors) is a single line or is not set — the C14 cases
-                 {"id": "C14", "quick": 8000, "thorough": 150000, "thorough_seeds": 4}],
+                 {"id": "C14", "quick": 8000, "thorough": 150000, "thorough_seeds": 4},
+                 # "ordered data/comment lines, identical bytes from every encoder" holds of every message however it came
+                 # about — cloned, appended to after its clone was, published: the family scripts of C19
+                 {"id": "C19", "quick": 6000, "thorough": 150000, "thorough_seeds": 4}],
         "compare": cmp_c15,
         "nontrivial": lambda c, g: not (g.startswith("0 | nil") or g.startswith("UEOF")),
         "rule": "messages as for C02; WT: a writer failing or short-writing (0..3 or all bytes, with/without error) at the k-th "
